@@ -33,8 +33,11 @@ def job(j):
         if len(state["samples"]) < 2 and nsel >= 3:
             state["samples"].append({"query": doc.text, "variables": execreplay.variables_py(rec["given"]),
                                      "overlay": rec["overlay"], "expected_data": render.value_py(rec["data"])})
-        if mm and len(state["viol"]) < 50:
-            state["viol"].append(({"kind": "exec-mismatch", "config": cfg, "first": mm[0][:160]},
+        if mm and len(state["viol"]) < 400:
+            tags = sorted({(e.get("extensions") or {}).get("tag") for e in (resp.get("errors") or []) if isinstance(e, dict) and (e.get("extensions") or {}).get("tag")}) if isinstance(resp, dict) else []
+            if j.get("want") == "C06" and not tags:
+                return            # C06 only judges refusals by a validation rule; other mismatches are C01's
+            genrun.add_viol(state["viol"], ({"kind": "exec-mismatch", "config": cfg, "rule_tags": tags, "first": mm[0][:160]},
                                   {"case": rec, "query": doc.text, "engine_cfg": ecfg, "mismatches": mm, "response": resp}))
 
     res = tlc.run("MC_exec.tla", cfg, on_line=on_line, workers=j.get("workers", 1), timeout=j.get("timeout", 3000))
